@@ -227,6 +227,9 @@ def run(ctx):
     a2 = ctx.tlc(sdir, "Wire.tla", "MC_Wire_nolimit.cfg", timeout=600, workers=4, count=False)
     if a2["inv"] != "NeverHangs":
         raise vlib.InfraError("the instance without the pointer limit should violate NeverHangs, got %s" % a2["inv"])
+    a3 = ctx.tlc(sdir, "Wire.tla", "MC_Wire_lockleak.cfg", timeout=600, workers=4, count=False)
+    if a3["inv"] != "NeverHangs":
+        raise vlib.InfraError("the instance whose failed-selection return keeps the selector lock should violate NeverHangs, got %s" % a3["inv"])
     if thorough:
         tcfg = "Gen_Wire_thorough.cfg"
         txt = open(os.path.join(sdir, tcfg)).read()
